@@ -320,3 +320,54 @@ def scalar_op_line(rng, c, inplace=None, r='t1'):
         return "sop %s op=%s k=%s ktype=%s%s" % (c.name, op, k, kt, tail)
     # illegal on this kind (must be rejected)
     return "sop %s op=add k=1 ktype=int%s" % (c.name, tail)
+
+
+def geom_line(rng, c, mode=None, r='g1'):
+    """a geometric shape combined with / rendered like map `c` (positions incl. poles, lon 0, tiny and large shapes)"""
+    import numpy as np
+    import hpgeom as hpg
+    nside = 2 ** c.spord
+    res = hpg.nside_to_resolution(nside)
+    lon = rng.choice([rng.uniform(0, 360), 0.0, 359.9, 45.0])
+    lat = rng.choice([float(np.degrees(np.arcsin(rng.uniform(-1, 1)))), 89.0, -89.5, 0.0])
+    shape = rng.choice(['circle', 'circle', 'ellipse', 'box', 'polygon'])
+    size = rng.choice([0.3, 1.0, 2.5, 5.0]) * res
+    if shape == 'circle':
+        par = [lon, lat, size]
+    elif shape == 'ellipse':
+        par = [lon, lat, size * 1.5, size * 0.7, rng.uniform(0, 180)]
+    elif shape == 'box':
+        size = min(size, 20.0)
+        lat = max(-60.0, min(60.0, lat))
+        par = [lon, (lon + 3 * size) % 360.0, lat - size, lat + size]
+    else:
+        size = min(size, 10.0)
+        lat = max(-60.0, min(60.0, lat))
+        par = [lon, lat, (lon + 2 * size) % 360.0, lat, (lon + size) % 360.0, lat + 2 * size]
+    mode = mode or rng.choice(['ior', 'ior', 'or', 'realize', 'getmap', 'getmaplike'])
+    if c.kind == 'wide':
+        W = c.nbytes * 8
+        bits = [rng.choice([0, 7, 8, 15, 16, W - 1, rng.randrange(W)]) % W for _ in range(rng.randint(1, 3))]
+        if mode == 'getmap':
+            bits = [rng.choice([0, 7, 8, 15, 16, 23, 24]) for _ in range(rng.randint(1, 3))]
+        vtxt = 'bits=%s' % ','.join(map(str, bits))
+        op = rng.choice(['or', 'or', 'and'])
+    elif c.is_bool:
+        vtxt = 'value=T'
+        op = rng.choice(['or', 'and'])
+    elif c.is_int:
+        vtxt = 'value=%s vtype=int' % c.scalar_tok(rng)
+        op = rng.choice(['or', 'and', 'add'] if c.zero_sentinel() else ['add'])
+    elif c.is_flt:
+        vtxt = 'value=%s vtype=flt' % dy(rng)
+        op = 'add'
+    else:
+        vtxt = 'value=1 vtype=int'
+        op = 'or'
+    ln = 'geom %s shape=%s params=%s %s op=%s mode=%s' % (c.name, shape, ':'.join(repr(float(x)) for x in par), vtxt,
+                                                        op, mode)
+    if mode in ('or', 'getmap', 'getmaplike'):
+        ln += ' r=%s' % r
+    if rng.random() < 0.25 and c.spord >= 1:
+        ln += ' render=%d' % rng.randint(max(0, c.spord - 2), c.spord)
+    return ln
